@@ -39,7 +39,7 @@ ASSUMPTIONS = [
     "the cache is only consulted in footprint mode (documented)",
 ]
 TOLERANCES = {"transparency": "array_equal, same dtype and shape"}
-BUDGET = {"quick": dict(examples=60, shards=1, enum_procs=1), "thorough": dict(examples=150, shards=16, enum_procs=16)}
+BUDGET = {"quick": dict(examples=120, shards=1, enum_procs=1), "thorough": dict(examples=400, shards=16, enum_procs=16)}
 STEP_COUNT = {"quick": 25, "thorough": 40}
 
 
